@@ -43,6 +43,10 @@ class PathEnd(Exception):
     """Silently ends the current path (after an inv-step obligation, infeasible assumption...)."""
 
 
+class RestartPath(Exception):
+    """Internal: re-run the current path from its start (an and/or operand turned out to fork; see Interp._under)."""
+
+
 class ReturnSignal(Exception):
     def __init__(self, value):
         self.value = value
@@ -117,26 +121,34 @@ class ClassRef:
 
 
 class CharBag:
-    """A string used only through `c in s` and `s.count(c)` (mode strings)."""
+    """A string used only through `c in s`, `s.count(c)`, set(s), Counter(s) (mode strings).
 
-    def __init__(self, ctx, name, alphabet):
+    Two encodings: with an `alphabet`, one Int counter per alphabet character plus `other` (number of characters
+    outside the alphabet) - quantifier free; without, a function cnt: String -> Int over one-character strings."""
+
+    def __init__(self, ctx, name, alphabet=None):
         self.name = name
         self.alphabet = alphabet
-        self.cnt = {c: z3.Int(f"{name}#{c}") for c in alphabet}
-        self.other = z3.Int(f"{name}#other")  # number of characters outside the alphabet
-        for c in alphabet:
-            ctx.axiom(self.cnt[c] >= 0)
-        ctx.axiom(self.other >= 0)
+        if alphabet is None:
+            self.cnt = z3.Function(f"{name}.count", z3.StringSort(), z3.IntSort())
+            ch = z3.String("ch!bag")
+            ctx.axiom(z3.ForAll([ch], self.cnt(ch) >= 0, patterns=[self.cnt(ch)]))
+        else:
+            self.counters = {c: z3.Int(f"{name}.count[{c}]") for c in alphabet}
+            self.other = z3.Int(f"{name}.count[other]")
+            for c in alphabet:
+                ctx.axiom(self.counters[c] >= 0)
+            ctx.axiom(self.other >= 0)
 
     def has(self, c):
-        if c in self.cnt:
-            return self.cnt[c] >= 1
-        raise Unsupported(f"CharBag: character {c!r} outside alphabet")
+        return self.count(c) >= 1
 
     def count(self, c):
-        if c in self.cnt:
-            return self.cnt[c]
-        raise Unsupported(f"CharBag: character {c!r} outside alphabet")
+        if self.alphabet is None:
+            return self.cnt(lift(c))
+        if isinstance(c, str) and c in self.counters:
+            return self.counters[c]
+        raise Unsupported(f"CharBag: {c!r} is outside the declared alphabet")
 
 
 class SymList:
@@ -388,7 +400,7 @@ class Ctx:
         self.path_no = 0
         self.path_ends: List[dict] = []
         self.feas_checks = 0
-        self.global_axioms: List[Any] = []  # do not depend on the path (declared once in setup of each path)
+        self.forced_first: Optional[int] = None  # scenario split: the first decision of every path is fixed to this option
         self._reset_path()
 
     # ---- per-path state
@@ -439,6 +451,11 @@ class Ctx:
         """n-way decision; conds[i] (optional z3 Bool) is assumed on option i and used for pruning."""
         if self.cursor < len(self.trace):
             options, idx = self.trace[self.cursor]
+        elif self.cursor == 0 and self.forced_first is not None:
+            if self.forced_first >= n:
+                raise PathEnd()
+            self.trace.append([[self.forced_first], 0])
+            options, idx = [self.forced_first], 0
         else:
             options = []
             for i in range(n):
@@ -528,7 +545,7 @@ class Interp:
 
     DROP_DEFAULT = ("warnings.warn", "warning", "self._logger.debug", "self._logger.warning", "self._logger.info", "self.logger.debug", "self.logger.warning", "self.logger.info", "logger.debug", "logger.warning")
 
-    def __init__(self, ctx: Ctx, fn_node, calls=None, consts=None, loops=None, cms=None, drop_calls=(), symcall=None, hooks=None):
+    def __init__(self, ctx: Ctx, fn_node, calls=None, consts=None, loops=None, cms=None, drop_calls=(), symcall=None, hooks=None, impure=None):
         self.ctx = ctx
         self.fn = fn_node
         self.calls = dict(calls or {})
@@ -538,14 +555,13 @@ class Interp:
         self.drop = set(self.DROP_DEFAULT) | set(drop_calls)
         self.symcall = symcall  # callable(ctx, fval, args, kwargs) for calling symbolic values
         self.hooks = dict(hooks or {})  # 'after_stmt': fn(ctx, interp, stmt, env)
-        self.loop_ids = {}
-        n = 0
-        for node in ast.walk(fn_node):
-            if isinstance(node, (ast.For, ast.While)):
-                pass
-        loops_sorted = sorted([x for x in ast.walk(fn_node) if isinstance(x, (ast.For, ast.While))], key=lambda x: (x.lineno, x.col_offset))
-        for i, node in enumerate(loops_sorted):
-            self.loop_ids[id(node)] = i
+        self.impure = impure if impure is not None else set()  # and/or operands known to fork (persist across the paths of a unit)
+        cached = getattr(fn_node, "_pyvc_loop_ids", None)
+        if cached is None:
+            loops_sorted = sorted([x for x in ast.walk(fn_node) if isinstance(x, (ast.For, ast.While))], key=lambda x: (x.lineno, x.col_offset))
+            cached = {id(node): i for i, node in enumerate(loops_sorted)}
+            fn_node._pyvc_loop_ids = cached
+        self.loop_ids = cached
 
     # ---------------------------------------------------------------- statements
     def exec_block(self, stmts, env):
@@ -672,7 +688,7 @@ class Interp:
         raise ContinueSignal()
 
     def st_Assert(self, s, env):
-        c = self.truth(self.eval(s.test, env))
+        c = self.eval_truth(s.test, env)
         if not self.ctx.branch(c, f"assert@{s.lineno}"):
             raise PyRaise(ExcVal("AssertionError", origin=f"assert@{s.lineno}"))
 
@@ -689,7 +705,7 @@ class Interp:
         raise Unsupported("nested class definition", s)
 
     def st_If(self, s, env):
-        c = self.truth(self.eval(s.test, env))
+        c = self.eval_truth(s.test, env)
         if self.ctx.branch(c, f"if@{s.lineno}"):
             self.exec_block(s.body, env)
         else:
@@ -792,7 +808,7 @@ class Interp:
         # no invariant: unroll while the condition is concrete
         n = 0
         while True:
-            c = self.truth(self.eval(s.test, env))
+            c = self.eval_truth(s.test, env)
             if not isinstance(c, bool):
                 raise Unsupported(f"while loop #{lid} with symbolic condition needs an invariant", s)
             if not c:
@@ -886,7 +902,7 @@ class Interp:
                 ctx.assume(k < n)
                 self.assign(s.target, elem, env)
             else:
-                c = self.truth(self.eval(s.test, env))
+                c = self.eval_truth(s.test, env)
                 ctx.assume(c)
             before_vars = dict(env.vars)
             mark = len(ctx.mutlog)
@@ -905,7 +921,7 @@ class Interp:
             if is_for:
                 ctx.assume(k == n)
             else:
-                c = self.truth(self.eval(s.test, env))
+                c = self.eval_truth(s.test, env)
                 ctx.assume(Not(c))
             self.exec_block(s.orelse, env)
 
@@ -1005,9 +1021,17 @@ class Interp:
         return z3.Concat(*[lift(p) for p in parts]) if len(parts) > 1 else lift(parts[0])
 
     def ex_IfExp(self, e, env):
-        c = self.truth(self.eval(e.test, env))
+        c = self.eval_truth(e.test, env)
         if isinstance(c, bool):
             return self.eval(e.body if c else e.orelse, env)
+        # both arms pure and of the same sort: one ite term, no fork
+        if id(e) not in self.impure:
+            _, a = self._under(c, lambda: self.eval(e.body, env), e)
+            _, b = self._under(Not(c), lambda: self.eval(e.orelse, env), e)
+            if _same_sort(a, b):
+                return z3.If(c, lift(a), lift(b))
+            self.impure.add(id(e))
+            raise RestartPath()
         if self.ctx.branch(c, f"ifexp@{e.lineno}"):
             return self.eval(e.body, env)
         return self.eval(e.orelse, env)
@@ -1018,57 +1042,93 @@ class Interp:
     def ex_UnaryOp(self, e, env):
         v = self.eval(e.operand, env)
         if isinstance(e.op, ast.Not):
-            return Not(self.truth(v))
+            return Not(self.truth(v))  # (operand already evaluated in value context)
         if isinstance(e.op, ast.USub):
             return -v
         if isinstance(e.op, ast.UAdd):
             return v
         raise Unsupported("unary op", e)
 
+    def _under(self, acc, thunk, node):
+        """Evaluate an and/or operand that is only reached when `acc` holds.
+
+        Pure operands are evaluated under the temporary hypothesis `acc` and merged into one term (no fork).  If the
+        operand makes a decision or raises, the operand is marked impure and the path is re-run; an impure operand is
+        preceded by a real branch on `acc`.  Returns (evaluated?, value)."""
+        ctx = self.ctx
+        if isinstance(acc, bool):
+            return (True, thunk()) if acc else (False, None)
+        if id(node) in self.impure:
+            if not ctx.branch(acc, f"shortcircuit@{getattr(node, 'lineno', 0)}"):
+                return False, None
+            return True, thunk()
+        c0 = ctx.cursor
+        n_pc = len(ctx.pc)
+        ctx.pc.append(acc)
+        try:
+            v = thunk()
+        except RestartPath:
+            raise
+        except BaseException:
+            self.impure.add(id(node))
+            del ctx.trace[c0:]
+            raise RestartPath()
+        if ctx.cursor != c0:
+            self.impure.add(id(node))
+            del ctx.trace[c0:]
+            raise RestartPath()
+        del ctx.pc[n_pc:n_pc + 1]
+        return True, v
+
+    def eval_truth(self, e, env):
+        """Truth value of an expression in a boolean context: and/or/not over pure operands become one term."""
+        if isinstance(e, ast.BoolOp):
+            is_and = isinstance(e.op, ast.And)
+            acc = True
+            parts = []
+            for operand in e.values:
+                done, t = self._under(acc, lambda: self.eval_truth(operand, env), operand)
+                if not done:
+                    break
+                parts.append(t)
+                if isinstance(t, bool):
+                    if t != is_and:
+                        break
+                    continue
+                acc = And(acc, t if is_and else Not(t))
+            return And(*parts) if is_and else Or(*parts)
+        if isinstance(e, ast.UnaryOp) and isinstance(e.op, ast.Not):
+            return Not(self.eval_truth(e.operand, env))
+        return self.truth(self.eval(e, env))
+
     def ex_BoolOp(self, e, env):
-        """and/or: no fork when every operand is pure and boolean-valued (DESIGN 2.4)."""
+        """and/or in a value context: no fork when every operand is pure and the sorts agree (DESIGN 2.4)."""
         is_and = isinstance(e.op, ast.And)
         vals = []
-        acc = None  # condition under which we are still evaluating
+        acc = True
         for i, operand in enumerate(e.values):
-            if acc is not None and not isinstance(acc, bool):
-                # evaluate the operand under the assumption that evaluation reaches it
-                n_pc = len(self.ctx.pc)
-                self.ctx.pc.append(acc)
-                n_obl = len(self.ctx.obligations)
-                try:
-                    v = self.eval(operand, env)
-                finally:
-                    del self.ctx.pc[n_pc:n_pc + 1]
-                # obligations created while evaluating keep `acc` among their hypotheses (captured at creation)
-            else:
-                v = self.eval(operand, env)
+            done, v = self._under(acc, lambda: self.eval(operand, env), operand)
+            if not done:
+                break
             t = self.truth(v)
             vals.append((v, t))
             if isinstance(t, bool):
-                if t != is_and:  # short circuit: result is this operand
-                    break
-                if i == len(e.values) - 1:
+                if t != is_and:
                     break
                 continue
-            acc = And(acc if acc is not None else True, t if is_and else Not(t))
-        # result value
-        last_v, last_t = vals[-1]
+            acc = And(acc, t if is_and else Not(t))
         if all(_is_boolish(v) for v, _ in vals):
             ts = [t for _, t in vals]
             return And(*ts) if is_and else Or(*ts)
-        # value-returning and/or: fold from the right with ite when sorts agree
-        res = last_v
-        for v, t in reversed(vals[:-1]):
-            if isinstance(t, bool):
-                # concrete operand that did not short-circuit: skipped
-                continue
-            take_this = Not(t) if is_and else t
+        # value-returning and/or: the result is the first operand that short-circuits, else the last one evaluated
+        live = [(v, t) for v, t in vals[:-1] if not isinstance(t, bool)]
+        res = vals[-1][0]
+        for v, t in reversed(live):
+            stop_here = Not(t) if is_and else t
             if _same_sort(v, res):
-                res = z3.If(take_this, lift(v), lift(res))
-            else:
-                if self.ctx.branch(take_this, f"boolop@{e.lineno}"):
-                    return v
+                res = z3.If(stop_here, lift(v), lift(res))
+            elif self.ctx.branch(stop_here, f"boolop@{e.lineno}"):
+                return v
         return res
 
     def ex_Compare(self, e, env):
@@ -1155,6 +1215,8 @@ class Interp:
         if isinstance(coll, CharBag):
             if isinstance(x, str) and len(x) == 1:
                 return coll.has(x)
+            if is_z3(x) and x.sort() == z3.StringSort():
+                return z3.And(z3.Length(x) == 1, coll.has(x))
             raise Unsupported("CharBag membership with non-char", node)
         if isinstance(coll, str) and isinstance(x, str):
             return x in coll
@@ -1203,7 +1265,11 @@ class Interp:
     def ex_BinOp(self, e, env):
         return self.binop(e.op, self.eval(e.left, env), self.eval(e.right, env), e)
 
+    _DUNDER = {ast.Add: "__add__", ast.Sub: "__sub__", ast.Mult: "__mul__", ast.BitOr: "__or__", ast.BitAnd: "__and__"}
+
     def binop(self, op, a, b, node):
+        if isinstance(a, Rec) and self._DUNDER.get(type(op)) in a.methods:
+            return a.methods[self._DUNDER[type(op)]](self.ctx, a, (b,), {})
         if is_concrete(a) and is_concrete(b) and not isinstance(a, Rec) and not isinstance(b, Rec):
             try:
                 return {
@@ -1537,7 +1603,7 @@ class Interp:
     def method(self, obj, name, args, kwargs, node):
         ctx = self.ctx
         if isinstance(obj, CharBag):
-            if name == "count" and isinstance(args[0], str):
+            if name == "count" and (isinstance(args[0], str) and len(args[0]) == 1):
                 return obj.count(args[0])
             raise Unsupported(f"CharBag method {name}", node)
         if isinstance(obj, SymList):
